@@ -516,7 +516,7 @@ class Gen:
             lv = self.pick_lvalue(sc, '#') or ['var', self.new_scalar(sc, '#')]
             a = self.num_expr(sc, 1, 3)
             return {'k': 'let', 'lv': lv,
-                    'e': ['raw', '(' + pe(a) + ') ^ '
+                    'e': ['raw', '(' + (pe(a) if r.random() < 0.7 else r.choice(('0', '0', '0 * 1', '-8', '10'))) + ') ^ '
                           + r.choice(('2', '3', '0', '.5', '(0 - 1)', '2.5', '400', '(0 - 2)')), '#'],
                     'rawexpr': True}
         x = r.random()
